@@ -63,6 +63,28 @@ theorem C03_ack_not_undone (s : MemStore) (now : Nat) (k : Key) (r snap : Record
     · rw [h1] at hl; simp [Mem.lookup_insert_self] at hl; subst hl
       rw [stamp_fresh_not_expired] at he; simp at he
 
+/-- the same with a clock that has moved on: a store acknowledged at time `now` is not undone by a collection running at
+    any later time `now'` at which the stored item is still within its life (TTL 0, or `now' < now + TTL`) — whatever
+    snapshot, however old, the collecting reader holds -/
+theorem C03_ack_not_undone_later (s : MemStore) (now now' : Nat) (k : Key) (r snap : Record) (c : Nat)
+    (hack : (s.set now k r).2 = .ok c) (hlive : r.header.ttl = 0 ∨ now' < now + r.header.ttl) :
+    ((s.set now k r).1.checkIfExpired now' k snap).1 = (s.set now k r).1 := by
+  rcases C03_collect_only_expired (s.set now k r).1 now' k snap with h | ⟨cur, hl, he, _⟩
+  · exact h
+  · exfalso
+    have hfresh : ∀ c', (stamp r c' now).expired now' = false := by
+      intro c'
+      simp only [Record.expired, stamp]
+      rcases hlive with h0 | h1
+      · simp [h0]
+      · simp; omega
+    rcases set_self_cases s now k r with ⟨h1, _⟩ | ⟨h1, _⟩ | ⟨h1, _⟩
+    · rw [h1] at hack; simp at hack
+    · rw [h1] at hl; simp [Mem.lookup_insert_self] at hl; subst hl
+      rw [hfresh] at he; simp at he
+    · rw [h1] at hl; simp [Mem.lookup_insert_self] at hl; subst hl
+      rw [hfresh] at he; simp at he
+
 /-- the calls that may hit key `k` while CAS-stores with the same token race: the stores themselves and the two
     halves of any number of concurrent gets -/
 inductive Call
@@ -244,3 +266,4 @@ end Memc
 #print axioms Memc.C03_execution_is_atomic_events
 #print axioms Memc.C03_collect_invisible
 #print axioms Memc.C03_linearizable
+#print axioms Memc.C03_ack_not_undone_later
